@@ -22,6 +22,7 @@ def respond (line : String) : String :=
     | "S" :: args => cmdS args
     | "T" :: args => cmdT args
     | "L" :: args => cmdL (" ".intercalate args :: rest)
+    | "M" :: "ext" :: args => cmdMext args rest
     | "M" :: args => cmdM args
     | "G" :: args => cmdG (" ".intercalate args :: rest)
     | _ => "bad"
